@@ -19,7 +19,6 @@ var issueToFinding = map[string]string{
 	"addl-raw-undeclared":         "K24-addl-raw-undeclared",
 	"int-literal-overflow":        "K25-int-literal-overflow",
 	"missing-import":              "K26-format-pointer-import",
-	"backtick-in-pattern":         "K5-backtick-in-text",
 	"anyof-branch-without-method": "K27-anyOf-ref-without-method",
 	"duplicate-field-name":        "K28-user-identifier-collides",
 }
